@@ -489,6 +489,10 @@ def _lca(a: ast.AST, b: ast.AST) -> Optional[ast.AST]:
 def deadline_factory(ctx, fn: Func) -> bool:
     """fn returns, on every path, either None under `self.time_limit is None` (no limit configured) or a closure
     defined in fn whose result is clock() - self.start_time > self.time_limit."""
+    from ..util import derived_deadline_attrs
+
+    if fn.cls is not None:
+        derived_deadline_attrs(ctx.tree, fn.cls)  # elapsed_compare accepts the class's cached-deadline attributes
     rets = [x for x in fn.own_nodes() if isinstance(x, ast.Return)]
     if not rets:
         return False
